@@ -132,3 +132,19 @@ PROPS["C20"] = {
     ),
     "note": _MARKUP_NOTE + "Trace content for all exceptions, verbatim source lines and recursion folding are not decided.",
 }
+
+SOURCE_COMMITS.append("0d24757")  # fix: empty-string token does not end the resolver's scan (C03)
+
+PROPS["C03"] = {
+    "claimed": True,
+    "technique": "static analysis: sibling agreement of index sets (add/get/__contains__), guard dominance and loop-exit ordering on the CFG, registration decision tables, sentinel-consistency lint",
+    "text": (
+        "Decides the structural clauses of command selection: every index CommandCollection.add records is consulted by both get and "
+        "__contains__ and nobody else touches the indices (alias clause); a token becomes a candidate name only on the false edge of a "
+        "dash-prefix test and the first option/'--' ends the scan; the tree walk leaves the loop on the first miss and descends through "
+        "named sub-commands; the undefined-command raise under 'candidates non-empty' precedes any use of default commands; "
+        "application-level and sub-command-level registration have the same (condition -> collection) table with 'enabled' dominating; "
+        "a scan that draws tokens with next(it, None) tests that sentinel, not truthiness."
+    ),
+    "note": "Which command is selected for every tree x command line (value-dependent) is not decided.",
+}
